@@ -72,6 +72,15 @@ theorem inactive_get_nothing (look : Cell → Option Int) (dt : α) (spec : Int 
       rw [List.countP_eq_zero]; intro c hc; simpa using h c hc
     simp [this]
 
+/-- `emission_function` (the path used with any other volume integrator): exactly one unit goes to the source of the point's
+cell, nothing to any other bin, nothing at all for an inactive cell -/
+theorem emit_adds_unit {β : Type} [AddCommMonoid β] [One β] (look : Cell → Option Int) (bins : Nat) (spec : Int → β)
+    (c : Cell) (s : Int) (hc : look c = some s) (hs : s < (bins : Int)) :
+    emit look bins spec c = some (if s < 0 then spec else bump spec s 1) := by
+  unfold emit write
+  rw [hc]
+  by_cases h : s < 0 <;> simp [h, hs]
+
 /-- sum over the bins of `bump` -/
 theorem sum_bump (bins : Nat) (spec : Int → α) (s : Int) (v : α) (h1 : s > -1) (h2 : s < (bins : Int)) :
     (Finset.range bins).sum (fun j => bump spec s v (j : Int)) = (Finset.range bins).sum (fun j => spec (j : Int)) + v := by
